@@ -653,9 +653,21 @@ def construct(w):
         w.image = cls.from_file(path)
     elif kind == "url":
         with open(path, "rb") as f:
-            w.image = cls.from_url(SERVER.url(name, f.read()))
+            main_url = SERVER.url(name, f.read())
+            w.image = cls.from_url(main_url)
         w.flags.add("url")
         if case.get("sibling_url", True):
+            # a second image from the very same URL is open for a while, then closed: the first keeps its own copy
+            sib = cls.from_url(main_url)
+            n_tmp = len(os.listdir(C._TEMP_DIR))
+            sib.close()
+            del sib
+            if n_tmp != 2:
+                w.fail(f"two images from the same URL are open and the library's temp dir holds {n_tmp} file(s)",
+                       "temp_file", at="same-URL image", want=2)
+            if len(os.listdir(C._TEMP_DIR)) != 1:
+                w.fail(f"after closing a second image from the same URL the temp dir holds {os.listdir(C._TEMP_DIR)}", "temp_file",
+                       at="same-URL image closed", want=1)
             # a second image from another URL with the same file name but other content is open for a while: each URL
             # image has its own private copy
             import io as _io
